@@ -182,6 +182,29 @@ def rand_lic_tok(r_):
     return T(r_.random() < 0.4, "flag", r_.choice(LICS))
 
 
+def rand_node_alic(r_):
+    """A profile node's ACCEPT_LICENSE: often "accept a lot, then take something back"."""
+    z = r_.random()
+    if z < 0.3:
+        return []
+    if z < 0.65:
+        head = r_.choice([T(False, "star", ""), T(False, "group", "g"), T(False, "group", "h")])
+        tail = [r_.choice([T(True, "flag", r_.choice(LICS)), T(True, "group", r_.choice(["g", "h"]))]) for _ in range(r_.randint(1, 2))]
+        return [head] + tail
+    return [rand_lic_tok(r_) for _ in range(r_.randint(1, 3))]
+
+
+def rand_kws(r_, arch):
+    z = r_.random()
+    if z < 0.25:
+        return ["~" + arch]
+    if z < 0.4:
+        return [arch]
+    if z < 0.5:
+        return []
+    return sorted({k for k in ["amd64", "x86", "~amd64", "~x86", "-amd64", "-*"] if r_.random() < 0.3})
+
+
 def rand_np(r_, p):
     neg, pos = [], []
     for s in ATOMS:
@@ -194,7 +217,7 @@ def rand_np(r_, p):
 
 
 def rand_kw_entry(r_, scopes):
-    toks = r_.choice([[], [T(False, "flag", "~amd64")], [T(False, "flag", "**")], [T(False, "star", "")], [T(False, "flag", "~*")],
+    toks = r_.choice([[], [], [T(False, "flag", "~amd64")], [T(False, "flag", "**")], [T(False, "star", "")], [T(False, "flag", "~*")],
                       [T(False, "flag", "~x86")], [T(False, "flag", "x86"), T(False, "flag", "~x86")], [T(False, "flag", "amd64")]])
     return dict(sc=r_.choice(scopes), toks=toks)
 
@@ -208,13 +231,13 @@ def rand_cfg(r_):
         defs.append(dict(name="h", members=[M(False, x) for x in LICS if r_.random() < 0.4] or [M(False, "l2")]))
     if not defs:
         defs = [dict(name="h", members=[M(False, "l2")])]
-    kwpool = ["amd64", "x86", "~amd64", "~x86", "-amd64", "-*"]
-    pkgs = [dict(id=p, kws=sorted({k for k in kwpool if r_.random() < 0.3}), lic=rand_tree(r_)) for p in sorted(PKGS)]
-    nodes = [dict(akw=rand_kw_stream(r_, 2), alic=[rand_lic_tok(r_) for _ in range(r_.randint(0, 3))], mask=rand_np(r_, 0.12),
+    arch = r_.choice(["amd64", "x86"])
+    pkgs = [dict(id=p, kws=rand_kws(r_, arch), lic=rand_tree(r_)) for p in sorted(PKGS)]
+    nodes = [dict(akw=rand_kw_stream(r_, 2), alic=rand_node_alic(r_), mask=rand_np(r_, 0.12),
                   unmask=rand_np(r_, 0.08), pakw=[rand_kw_entry(r_, ATOMS) for _ in range(r_.randint(0, 2))]) for _ in range(r_.randint(1, 3))]
     scs = sorted(SCOPES)
     return dict(
-        arch=r_.choice(["amd64", "x86"]), nodes=nodes,
+        arch=arch, nodes=nodes,
         conf=dict(akw=rand_kw_stream(r_, 3), alic=[rand_lic_tok(r_) for _ in range(r_.randint(1, 4))]),
         user=dict(mask=sorted({s for s in scs if r_.random() < 0.12}), unmask=sorted({s for s in scs if r_.random() < 0.12}),
                   pakw=[rand_kw_entry(r_, scs) for _ in range(r_.randint(0, 3))],
@@ -251,17 +274,17 @@ def run(ck):
     if ck.replay_case:
         cfgs = [ck.replay_case["detail"]["cfg"]]
     else:
-        ck.laws("Visibility_Laws", label="Laws:Visibility_Laws (DNF of licence trees)", timeout=900)
+        ck.laws("Visibility_Laws", label="Laws:Visibility_Laws (DNF of licence trees)", timeout=ck.pick(1500, 10800))
         if ck.quick:
-            ck.mc("Visibility_MC", cfg_text=mc_cfg(2, False, [2], ["any_a", "eq_a1"]), workers=4, timeout=1500, label="MC:Visibility_MC N=2 2 scopes")
+            ck.mc("Visibility_MC", cfg_text=mc_cfg(2, False, [2], ["any_a", "eq_a1"]), workers=4, timeout=ck.pick(1500, 10800), label="MC:Visibility_MC N=2 2 scopes")
         else:
-            ck.mc("Visibility_MC", cfg_text=mc_cfg(2, False, [1, 2], ["glob", "any_a", "eq_a1", "cat_dog"]), workers=4, timeout=3000,
+            ck.mc("Visibility_MC", cfg_text=mc_cfg(2, False, [1, 2], ["glob", "any_a", "eq_a1", "cat_dog"]), workers=4, timeout=10800,
                   label="MC:Visibility_MC N=2 4 scopes 2 nodes")
         D = ck.pick(7, 10)
         from pylib.common import seed
 
         sim = tlc.run("Visibility_MC", cfg_text=mc_cfg(D, True, [1, 2], sorted(SCOPES), sim=True), simulate=f"num={ck.pick(6, 60)}",
-                      depth=2 * D + 2, seed=seed() + 13, workers=1, timeout=900)
+                      depth=2 * D + 2, seed=seed() + 13, workers=1, timeout=ck.pick(1500, 10800))
         ck.add_mc(f"Simulate:Visibility_MC edits={D}", sim)
         found = [p[1] for p in sim.tagged("CFG")]
         want = ck.pick(100, 1500)
@@ -271,7 +294,7 @@ def run(ck):
         r_.shuffle(found)
         cfgs = [from_tla(c) for c in found[:want]]
         ck.sample(dict(direction="spec->code", cfg=cfgs[0]))
-        cfgs += [rand_cfg(r_) for _ in range(ck.pick(200, 4000))]
+        cfgs += [rand_cfg(r_) for _ in range(ck.pick(300, 4000))]
     events = []
     for n, cfg in enumerate(cfgs):
         obs = observe(cfg)
@@ -284,7 +307,7 @@ def run(ck):
     STEP = 1500
     for lo in range(0, len(events), STEP):
         part = events[lo:lo + STEP]
-        for v in ck.trace("Visibility_Trace", part, label=f"Trace:Visibility_Trace[{lo}:{lo + len(part)}]", timeout=1500):
+        for v in ck.trace("Visibility_Trace", part, label=f"Trace:Visibility_Trace[{lo}:{lo + len(part)}]", timeout=ck.pick(1500, 10800)):
             e = events[v["tid"]]
             if v["clause"] == "OutsideDomain":
                 raise tlc.MachineryError(f"generator left the property's domain: {e['cfg']}")
